@@ -443,7 +443,10 @@ class Interp:
             if m.group(2) == 'BITS': return VInt({'8': 8, '16': 16, '32': 32, '64': 64, '128': 128, 'size': 64}[m.group(1)[1:]], 'u32')
             return VInt(lo if m.group(2) == 'MIN' else hi, m.group(1))
         if t == '()': return VUnit()
-        m = re.match(r'^b?"(.*)"$', t, re.S)
+        m = re.match(r'^b"(.*)"$', t, re.S)
+        if m:      # byte string literal: &[u8; N]
+            return VRef(Cell(VTuple([VInt(ord(ch) & 0xff, 'u8') for ch in decode_rust_str(m.group(1))])), [])
+        m = re.match(r'^"(.*)"$', t, re.S)
         if m:
             return self.str_const(decode_rust_str(m.group(1)))
         m = re.match(r"^'(.*)'$", t, re.S)
@@ -466,6 +469,12 @@ class Interp:
         if '::promoted[' in t or '::{constant#' in t:
             if t in self.statics: return self.statics[t]
             cands = self.find_bodies(t, kinds=('const',))
+            if not cands:
+                # promoted constant of a trait method:  <T as Trait>::method::promoted[n]  ->  <impl at ..>::method::promoted[n]
+                mm = re.match(r'^(.*)::(promoted\[\d+\]|\{constant#\d+\})$', t)
+                if mm:
+                    outer = [b for b in self.find_impl(mm.group(1)) if b.kind == 'fn']
+                    if len(outer) == 1: cands = [b for b in self.bodies.get(outer[0].name + '::' + mm.group(2), []) if b.kind == 'const']
             if cands:
                 self.statics[t] = self.run_body(cands[0], [])
                 return self.statics[t]
